@@ -2,12 +2,14 @@ SPECIFICATION MSpec
 CONSTANTS
   B = 3
   MaxArr = 5
+  Kinds = {"C", "I", "X"}
   Srcs = {1}
   LevelTriggered = TRUE
   MaxBatches = 16
+  StaleFailFlag = FALSE
   DrainExitsOnEmptyBatch = FALSE
 VIEW mview
 ACTION_CONSTRAINT Emit
-INVARIANTS AtMostOnce OwnSlot Faithful NoStranded BatchBound ExactlyOnce OwnProtocol NoReplyToInvalid
+INVARIANTS AtMostOnce OwnSlot Faithful NoStranded BatchBound ExactlyOnce OwnProtocol NoReplyToInvalid StatsConserve StatsResponses StatsSettled StatsAreTraffic
 PROPERTY Responsive
 CHECK_DEADLOCK FALSE
